@@ -90,6 +90,11 @@ type Shape struct {
 	LockTime uint32 `json:"locktime"`
 	Ins      []In   `json:"ins"`
 	Outs     []Out  `json:"outs"`
+	// Shared: Build carves every script (and txid) out of ONE byte arena, each
+	// slice keeping the capacity up to the arena's end - the layout of data
+	// sliced out of a received buffer. A library write into the spare capacity
+	// of any of them lands in its neighbours and shows in the serialisation.
+	Shared bool `json:"shared,omitempty"`
 }
 
 // Ambiguous reports the one shape excluded by the properties: no inputs, no
@@ -98,9 +103,33 @@ func (s *Shape) Ambiguous() bool {
 	return len(s.Ins) == 0 && len(s.Outs) == 0 && s.LockTime == 0xef000000
 }
 
+// BuildShared is Build with the Shared layout (see Shape.Shared).
+func (s *Shape) BuildShared() *bt.Tx {
+	c := *s
+	c.Shared = true
+	return c.Build()
+}
+
 // Build constructs the go-bt transaction through exported fields and methods.
 func (s *Shape) Build() *bt.Tx {
 	tx := &bt.Tx{Version: s.Version, LockTime: s.LockTime}
+	carve := func(b []byte) []byte { return append([]byte{}, b...) }
+	if s.Shared {
+		n := 16
+		for i := range s.Ins {
+			n += len(s.Ins[i].Unlock) + len(s.Ins[i].PrevScript)
+		}
+		for i := range s.Outs {
+			n += len(s.Outs[i].Script)
+		}
+		arena := make([]byte, 0, n)
+		carve = func(b []byte) []byte {
+			off := len(arena)
+			arena = append(arena, b...) // never reallocates: n bytes were reserved
+			return arena[off:len(arena):cap(arena)]
+		}
+		defer func() { arena = append(arena, "ARENA-TAIL-GUARD"...) }()
+	}
 	for i := range s.Ins {
 		in := &s.Ins[i]
 		bi := &bt.Input{PreviousTxOutIndex: in.Vout, SequenceNumber: in.Seq, PreviousTxSatoshis: in.PrevSats}
@@ -118,16 +147,16 @@ func (s *Shape) Build() *bt.Tx {
 				bi.UnlockingScript = nil
 			}
 		} else if !in.UnlockNil {
-			bi.UnlockingScript = bscript.NewFromBytes(append([]byte{}, in.Unlock...))
+			bi.UnlockingScript = bscript.NewFromBytes(carve(in.Unlock))
 		}
 		if !in.PrevScriptNil {
-			bi.PreviousTxScript = bscript.NewFromBytes(append([]byte{}, in.PrevScript...))
+			bi.PreviousTxScript = bscript.NewFromBytes(carve(in.PrevScript))
 		}
 		tx.Inputs = append(tx.Inputs, bi)
 	}
 	for i := range s.Outs {
 		o := &s.Outs[i]
-		tx.Outputs = append(tx.Outputs, &bt.Output{Satoshis: o.Sats, LockingScript: bscript.NewFromBytes(append([]byte{}, o.Script...))})
+		tx.Outputs = append(tx.Outputs, &bt.Output{Satoshis: o.Sats, LockingScript: bscript.NewFromBytes(carve(o.Script))})
 	}
 	return tx
 }
